@@ -77,9 +77,14 @@ def run(ctx, model_ok):
                 pairs.append((a, b))
         ctx.exhaustive = True
     n = ctx.n(3000, 20000)
+    # the extremes of the table against each other (offset differences of a day and more): default zone at one end, the zone
+    # on the line at the other
+    west = sorted(names, key=lambda z: Z[z])[:4]
+    east = sorted(names, key=lambda z: Z[z])[-4:]
     frac = [z for z in names if Z[z] % 60 != 0]
     defaults = [("UTC", 0)] + [(z, Z[z]) for z in rng.sample(names, 5)] + [(z, Z[z]) for z in rng.sample(frac, min(3, len(frac)))] + \
-        [("GMT+3", 180), ("GMT-5:30", -330), ("GMT+5:30", 330), ("GMT-0:30", -30), ("GMT+0:45", 45)]
+        [("GMT+3", 180), ("GMT-5:30", -330), ("GMT+5:30", 330), ("GMT-0:30", -30), ("GMT+0:45", 45)] + \
+        [(z, Z[z]) for z in (west[0], east[-1], east[0])] + [("GMT-11", -660), ("GMT+13:45", 825)]
     for i in range(n + len(pairs)):
         dz, doff = rng.choice(defaults) if rng.random() < 0.4 else ("UTC", 0)
         h, m, s = rng.randint(0, 23), rng.randint(0, 59), rng.choice([None, None, rng.randint(0, 59)])
@@ -106,6 +111,13 @@ def run(ctx, model_ok):
         else:
             z1t, o1, n1 = zone(rng)
             z2t, o2, n2 = zone(rng)
+            if doff != 0 and rng.random() < 0.35:
+                # the zone on the line from the end of the table opposite to the default zone
+                z1t = rng.choice(west if doff > 0 else east)
+                o1, n1 = Z[z1t], z1t
+            if doff != 0 and rng.random() < 0.2:
+                z2t = rng.choice(west if doff > 0 else east)
+                o2, n2 = Z[z2t], z2t
         kind = rng.choice(["plain", "zone", "convert", "convert", "add", "sub", "to"])
         cfg = [] if dz == "UTC" else [{"op": "tz", "v": dz}]
         if kind == "plain":
